@@ -32,172 +32,13 @@ static CaseResult wrap_case(Tape &t)
 }
 
 
-// Third shape (one case in eight): real client and real server on a network that decides by what it sees (an adversarial but legal
-// network: it only drops).  The client has just received a one-fragment packet; the next N downstream packets (N mostly 7, so that the
-// server's 3-bit sequence number comes round) are one-fragment packets the server sends once and forgets, all lost together with the
-// first fragment of a crafted two-fragment packet; then the path is clean again.  Every packet the client writes to its tun device must
-// be one that was offered on the server's.
-static CaseResult downwrap_case(Tape &t)
-{
-	CaseResult r;
-	scn::Config c;
-	static const int QT[] = {1, 3, 2, 4, 5, 6};
-	c.qtype = QT[t.pick({4, 3, 1, 2, 2, 2})];
-	c.lazy = t.chance(1, 3) ? 0 : 1;
-	c.downenc = (int)t.pick({5, 2, 2, 2, 2, 2});
-	c.frag = c.qtype == 6 ? t.range(50, 100) : t.range(60, 400);
-	int N = (int)(const int[]){7, 7, 7, 15, 6, 8, 3}[t.below(7)];
-	// one case in three: the merge variant (below); it needs immediate mode -- in lazy mode the answer the network has to let through
-	// would belong to a query the client no longer counts among its three most recent
-	bool merge = t.chance(1, 3);
-	if (merge) c.lazy = 0;
-	// merge variant: is the new packet's first fragment lost as well?  Then nothing tells the client that the fragment it holds belongs to
-	// another packet: known finding K3 (known_findings.json), excluded by construction unless the driver replays the pinned case
-	bool lose_b0 = t.chance(1, 2), excluded_k3 = false;
-	if (merge && lose_b0 && !getenv("VERIF_KNOWN")) { lose_b0 = false; excluded_k3 = true; }
-	c.srv_seed = t.u32() | 1; c.cli_seed = t.u32() | 1;
-	scn::Session s(c);
-	mon::TunMonitor tm; tm.attach(sim::W);
-	s.start_server(); s.start_client(0);
-	bool dropping = false; int n_data_dropped = 0, n_dropped = 0; int Fd = 0; int srv_idx = 0;
-	bool hold_up = false, drop_up = false; int pass_up = 0, n_first_frags_passed = 0; std::vector<sim::Datagram> held;
-	sim::W.router = [&](const sim::Datagram &dg) {
-		if (dg.from_inst != srv_idx && dg.from_inst >= 1) {
-			if (pass_up > 0) { pass_up--; if (pass_up == 0) drop_up = true; }
-			else if (hold_up) { held.push_back(dg); return; }
-			else if (drop_up) return;
-		}
-		if (dg.from_inst == srv_idx) {
-			refproto::Answer a; refproto::DownHdr h;
-			bool data = refproto::decode_answer(dg.data, a) && a.ok && a.payload.size() > 2 && !a.qname.empty() && (a.qname[0] == 'p' || a.qname[0] == 'P' || isdigit((unsigned char)a.qname[0]) || (a.qname[0] >= 'a' && a.qname[0] <= 'f') || (a.qname[0] >= 'A' && a.qname[0] <= 'F')) && refproto::down_header(a.payload, h);
-			if (data && !h.last && h.dn_frag == 0 && (int)a.payload.size() - 2 > Fd) Fd = (int)a.payload.size() - 2;
-			if (dropping) { n_dropped++; if (data) n_data_dropped++; return; }
-			if (data && !h.last && h.dn_frag == 0) n_first_frags_passed++;
-		}
-		sim::W.deliver_after(dg, sim::W.latency_us);
-	};
-	srv_idx = s.srv->idx;
-	bool up = s.wait_all(150);
-	r.render = "adversarial network, downstream sequence-number wrap: " + c.describe();
-	if (sim::W.livelock) r.fail("C01:livelock", "simulation did not make progress");
-	r.cls("adversarial-network");
-	if (!up) { r.cls("handshake-failed"); return r; }
-	Bytes sip = s.server_tun_ip(), cip = sip;
-	for (auto &cmd : s.cli[0]->system_calls) {
-		unsigned a, b, cc, d; size_t p = cmd.find("ifconfig ");
-		if (p != std::string::npos && sscanf(cmd.c_str() + p, "ifconfig %*s %u.%u.%u.%u", &a, &b, &cc, &d) == 4) { cip = Bytes{(uint8_t)a, (uint8_t)b, (uint8_t)cc, (uint8_t)d}; break; }
-	}
-	std::vector<Bytes> offered;
-	auto offer = [&](const Bytes &pkt) { offered.push_back(pkt); sim::W.offer_tun(s.srv, pkt); };
-	auto incompressible = [&](size_t n, uint32_t seed) { Bytes b(n); uint32_t x = seed | 1; for (auto &v : b) { x ^= x << 13; x ^= x >> 17; x ^= x << 5; v = (uint8_t)(x >> 11); } return b; };
-	sim::W.run_for(2000000);
-	// calibration: a three-fragment packet shows the fragment size the server really uses
-	offer(scn::tun_packet(cip, sip, incompressible((size_t)c.frag * 2 + 30, 77), 0x4000));
-	sim::W.run_for(8000000);
-	if (Fd < 40) { r.cls("no-calibration"); return r; }
-	// a one-fragment packet: the client's downstream position is now (s, fragment 0), nothing stored
-	offer(scn::tun_packet(cip, sip, Bytes(16, 0x33), 0x4001));
-	sim::W.run_for(6000000);
-	// ---- merge variant, phase A: the client ends up holding the first fragment of a packet A that the server has given up
-	Bytes mA, mB; bool phaseA = false;
-	if (merge) {
-		Bytes pre = scn::tun_packet(cip, sip, incompressible((size_t)Fd - 7 - 24, t.u32()), 0x4300);   // exactly the bytes of the first fragment
-		if ((int)pre.size() == Fd - 7) {
-			Bytes pre2 = pre; bool ok = false;
-			for (size_t k = 30; k + 3 < pre2.size(); k++) if (pre2[k] < 255 && pre2[k + 1] >= 2 && pre2[k + 2] < 255) { pre2[k]++; pre2[k + 1] -= 2; pre2[k + 2]++; ok = true; break; }
-			mA = pre; mB = pre2;
-			Bytes ta = incompressible(40, 91), tb = incompressible(40, 92);
-			mA.insert(mA.end(), ta.begin(), ta.end()); mB.insert(mB.end(), tb.begin(), tb.end());
-			Bytes za = refproto::zcompress(mA), zb = refproto::zcompress(mB);
-			ok = ok && za.size() == mA.size() + 11 && zb.size() == mB.size() + 11 && !memcmp(za.data() + 7, mA.data(), mA.size()) && !memcmp(zb.data() + 7, mB.data(), mB.size()) && (int)za.size() <= 2 * Fd;
-			if (ok) {
-				hold_up = true;                                   // six or more of the client's queries are held up somewhere
-				for (int w = 0; w < 400 && held.size() < 6; w++) sim::W.run_for(100000);
-				if (held.size() >= 6) {
-					offer(mA);
-					sim::W.run_for(50000);
-					int before = n_first_frags_passed;
-					hold_up = false; pass_up = 1;                    // the next query gets through at once, and its answer (A's first fragment) too
-					for (int w = 0; w < 100 && n_first_frags_passed == before; w++) sim::W.run_for(50000);
-					if (n_first_frags_passed == before + 1) {
-						sim::W.run_for(20000);
-						dropping = true;                              // from now on every answer is lost ...
-						drop_up = true;                               // ... and so are the client's new queries, which acknowledge the fragment,
-						for (auto &h : held) { sim::W.deliver_after(h, sim::W.latency_us); sim::W.run_for(30000); }   // while the held-up ones arrive: stale acknowledgements, the server re-sends and gives up
-						held.clear();
-						sim::W.run_for(200000);
-						drop_up = false;
-						phaseA = true;
-					}
-				}
-				hold_up = false; if (!phaseA) { drop_up = false; pass_up = 0; for (auto &h : held) sim::W.deliver_after(h, sim::W.latency_us); held.clear(); }
-			}
-		}
-		if (!phaseA) merge = false;
-		if (merge) N = 7;
-	}
-	dropping = true;
-	bool paced = true;
-	for (int i = 0; i < N && paced; i++) {
-		int before = n_data_dropped;
-		offer(scn::tun_packet(cip, sip, Bytes(12 + i, (uint8_t)(0x40 + i)), (uint16_t)(0x4100 + i)));
-		for (int w = 0; w < 120 && n_data_dropped == before; w++) sim::W.run_for(100000);
-		if (n_data_dropped != before + 1) paced = false;
-	}
-	if (merge && paced) {
-		int before = n_data_dropped;
-		if (!lose_b0) dropping = false;                       // the path is clean again before the new packet starts
-		offer(mB);
-		for (int w = 0; w < 120 && n_data_dropped == before && lose_b0; w++) sim::W.run_for(100000);
-		bool sentB = !lose_b0 || n_data_dropped == before + 1;
-		dropping = false;
-		sim::W.run_for(15000000);
-		r.render += scn::fmt(" | merge variant: Fd=%d first fragment of A delivered, A given up, 7 one-fragment packets and B's first fragment lost=%d; answers dropped=%d (with data %d)", Fd, (int)sentB, n_dropped, n_data_dropped);
-		if (sim::W.livelock) r.fail("C01:livelock", "simulation did not make progress");
-		for (auto &w : tm.writes_of(s.cli[0]->idx)) if (std::find(offered.begin(), offered.end(), w.data) == offered.end()) {
-			r.fail(lose_b0 ? "C01:merged-downstream-first-fragment-lost" : "C01:merged-downstream-after-wrap", scn::fmt("the client wrote a %zu-byte packet to its tun device that was never offered on the server's: %s", w.data.size(), hexs(w.data, 48).c_str()) + "\n" + r.render);
-			break;
-		}
-		r.nontrivial = sentB;
-		if (sentB) r.cls("downstream-merge-after-given-up-first-fragment");
-		if (excluded_k3) r.cls("excluded-known:K3-new-first-fragment-lost-too");
-		return r;
-	}
-	Bytes Q = scn::tun_packet(cip, sip, Bytes(20, 0x51), 0x5100);
-	Bytes zq = refproto::zcompress(Q);
-	Bytes P = scn::tun_packet(cip, sip, incompressible((size_t)Fd - 7 - 24, t.u32()), 0x4200);
-	bool crafted = false;
-	if (paced && (int)P.size() == Fd - 7) {
-		P.insert(P.end(), zq.begin(), zq.end());
-		Bytes tail = incompressible(24, 5); P.insert(P.end(), tail.begin(), tail.end());
-		Bytes zp = refproto::zcompress(P);
-		if (zp.size() == P.size() + 11 && !memcmp(zp.data() + 7, P.data(), P.size()) && (int)zp.size() <= 2 * Fd) {
-			int before = n_data_dropped;
-			offer(P);
-			for (int w = 0; w < 120 && n_data_dropped == before; w++) sim::W.run_for(100000);
-			crafted = n_data_dropped == before + 1;
-		}
-	}
-	dropping = false;
-	sim::W.run_for(15000000);
-	r.render += scn::fmt(" | Fd=%d N=%d paced=%d crafted=%d answers dropped=%d (with data %d)", Fd, N, (int)paced, (int)crafted, n_dropped, n_data_dropped);
-	if (sim::W.livelock) r.fail("C01:livelock", "simulation did not make progress");
-	for (auto &w : tm.writes_of(s.cli[0]->idx)) {
-		if (std::find(offered.begin(), offered.end(), w.data) == offered.end()) {
-			r.fail("C01:fabricated-downstream-after-wrap", scn::fmt("the client wrote a %zu-byte packet to its tun device that was never offered on the server's: %s", w.data.size(), hexs(w.data, 48).c_str()) + "\n" + r.render);
-			break;
-		}
-	}
-	r.nontrivial = crafted;
-	if (crafted) r.cls(N % 8 == 7 ? "downstream-sequence-number-wrap-with-crafted-packet" : "downstream-loss-burst-without-wrap");
-	return r;
-}
+#include "advnet_case.h"
 
 static CaseResult run_case(Tape &t)
 {
 	const char *shape = getenv("VERIF_C01_SHAPE");   // development aid: w / d force the second / third shape (the draws still happen)
 	bool w = t.chance(1, 6); if (w || (shape && *shape == 'w')) return wrap_case(t);
-	bool dn = t.chance(1, 8); if (dn || (shape && *shape == 'd')) return downwrap_case(t);
+	bool dn = t.chance(1, 8); if (dn || (shape && *shape == 'd')) return advnet::downwrap_case(t, false);
 	CaseResult r;
 	tun::Run R;
 	tun::Mode m = t.chance(1, 5) ? tun::CLEAN : tun::FAULTY;
